@@ -1020,6 +1020,11 @@ func processInterfaceValue(fset *token.FileSet, info *types.Info, call *ast.Call
 	if !types.Implements(provided, methodSet) {
 		return nil, notePosition(fset.Position(call.Pos()), fmt.Errorf("%s does not implement %s", types.TypeString(provided, nil), types.TypeString(iface, nil)))
 	}
+	if b, ok := provided.(*types.Basic); ok && b.Kind() == types.UntypedNil {
+		// Untyped nil "implements" the empty interface, but there is no
+		// type to declare the generated variable with.
+		return nil, notePosition(fset.Position(call.Pos()), fmt.Errorf("second argument to InterfaceValue may not be untyped nil; convert it to a type that implements %s", types.TypeString(iface, nil)))
+	}
 	return &Value{
 		Pos:  call.Args[1].Pos(),
 		Out:  iface,
